@@ -212,3 +212,23 @@ class Relabel:
 
     def floor(self, _rule, *a, **kw):
         return self._r.floor(self._rule, *a, **kw)
+
+
+def run_stage(run: "Run", stage: str) -> None:
+    """Re-evaluate the complete rule set of another property inside this run (the property depends on that stage);
+    obligations are recorded with a [stage ..] prefix, findings keep the stage's rule id."""
+    import importlib
+
+    mod = importlib.import_module(f"sa.rules.{stage}")
+    sub = Run(stage.upper(), run.model, run.tier, run.seed)
+    mod.check(sub)
+    for o in sub.obligations:
+        o2 = dict(o)
+        o2["what"] = f"[stage {stage.upper()}] " + o2["what"]
+        run.obligations.append(o2)
+    for f in sub.findings:
+        f.prop = run.prop
+        if f.key() not in [x.key() for x in run.findings]:
+            run.findings.append(f)
+    run.functions_analysed |= sub.functions_analysed
+    run.notes.setdefault("stage_obligations", {})[stage.upper()] = len(sub.obligations)
